@@ -57,7 +57,13 @@ def main():
     props = [pid]
     if "--props" in sys.argv:
         props = sys.argv[sys.argv.index("--props") + 1].split(",")
-    wt = f"/tmp/seed/{pid}"
+    root = "/tmp/seed"
+    store_n = n
+    if "--root" in sys.argv:
+        root = sys.argv[sys.argv.index("--root") + 1]
+    if "--as" in sys.argv:
+        store_n = sys.argv[sys.argv.index("--as") + 1]
+    wt = f"{root}/{pid}"
     patch = os.path.join(wt, f"seed_{n}.patch")
     assert os.path.exists(patch), patch
     sh("git checkout -- . ", wt)
@@ -71,7 +77,7 @@ def main():
     sh("git checkout -- .", wt)
     sh(f"rm -rf {wt}/seed_{n}_demo/target {wt}/seed_{n}_demo/*/target {wt}/seed_demo_target {wt}/target", wt)
     confirmed = built and passed >= 99 and set(failed) <= {"tests::client::test_url_parser"} and rc0 == 0 and rc1 not in (0, None)
-    print(f"== {pid}-{n}: builds={built} suite_passed={passed} suite_failed={failed} demo_clean_rc={rc0} demo_patched_rc={rc1} -> confirmed={confirmed}")
+    print(f"== {pid}-{store_n}: builds={built} suite_passed={passed} suite_failed={failed} demo_clean_rc={rc0} demo_patched_rc={rc1} -> confirmed={confirmed}")
     if not confirmed:
         print("--- demo clean tail:\n", (out0 or "")[-600:], "\n--- demo patched tail:\n", (out1 or "")[-600:])
     # our checks
@@ -84,7 +90,7 @@ def main():
             print("      ", v["key"][:180])
         if rc not in (0, 1):
             print(stdout[-1500:])
-    out_dir = os.path.join(VERIF, "seeded", f"{pid}-{n}")
+    out_dir = os.path.join(VERIF, "seeded", f"{pid}-{store_n}")
     if os.path.isdir(out_dir):
         shutil.rmtree(out_dir)
     os.makedirs(out_dir)
